@@ -90,6 +90,45 @@ func VerifC18Exec() {
 	verif.Reach("end")
 }
 
+// VerifC18Twice: one compiled action (or guard) serves many machines and node visits: the same FuncAction
+// is executed twice, with two unrelated sets of bindings; whatever the first execution saw, the second one
+// still keeps every permanent binding IT was given (the action deletes everything in place, or returns
+// other bindings).
+func VerifC18Twice() {
+	bs1 := match.Bindings(verif.AnyMap("bs1", verif.Opts{Depth: 1, Width: 2}))
+	bs2 := match.Bindings(verif.AnyMap("bs2", verif.Opts{Depth: 1, Width: 2}))
+	res := verif.Choose("result", 2)
+	a := &FuncAction{F: func(ctx context.Context, in match.Bindings, p StepProps) (*Execution, error) {
+		if res == 0 {
+			for k := range in {
+				delete(in, k)
+			}
+			return NewExecution(in), nil
+		}
+		return NewExecution(match.NewBindings()), nil
+	}}
+	_, err1 := a.Exec(context.Background(), bs1.Copy(), nil)
+	verif.Assert("first-execution-succeeds", err1 == nil)
+	exe, err := a.Exec(context.Background(), bs2.Copy(), nil)
+	verif.Assert("second-execution-succeeds", err == nil && exe != nil && exe.Bs != nil)
+	if err == nil && exe != nil && exe.Bs != nil {
+		for _, k := range verif.Keys(bs2) {
+			if strings.HasSuffix(k, "!") {
+				got, have := exe.Bs[k]
+				verif.Assert("permanent-kept-on-a-later-execution", have)
+				verif.Assert("permanent-value-on-a-later-execution", verif.JSONEqual(got, bs2[k]))
+			}
+		}
+		for _, k := range verif.Keys(exe.Bs) {
+			// ... and nothing of the first execution's bindings leaks into the second
+			if _, mine := bs2[k]; !mine {
+				verif.Assert("nothing-leaks-from-an-earlier-execution", false)
+			}
+		}
+	}
+	verif.Reach("twice-done")
+}
+
 // VerifC18Step: at the level of a whole step (action, then guarded or unguarded branches, error routing):
 // every permanent binding of the state is present, with its previous value, in the state the step
 // produces - whatever the action or guard deleted, overwrote or returned instead, and also when the
